@@ -358,6 +358,27 @@ Proof.
     eapply hv_le_trans; [exact L04|]. destruct L5 as [L5|[L5a L5b]]; [left; cbn; exact L5|right; cbn; auto].
 Qed.
 
+Lemma sync_main_inv n prev : NInv c n -> NInv c (fst (sync_main n prev)) /\ hv_le n (fst (sync_main n prev)).
+Proof.
+  intro I. unfold sync_main. cbn zeta.
+  set (hb := match prev with Some b => b_height b | None => 0 end).
+  assert (G : NInv c (fst (let n1 := cancel_older (wrap64 (hb + 1), 0) n in
+                           if negb (ctx_for n1 (wrap64 (hb + 1), 0)) then (n1, false) else (set_maxsync hb n1, true))) /\
+              hv_le n (fst (let n1 := cancel_older (wrap64 (hb + 1), 0) n in
+                           if negb (ctx_for n1 (wrap64 (hb + 1), 0)) then (n1, false) else (set_maxsync hb n1, true)))).
+  { cbn zeta. set (n1 := cancel_older _ n). assert (I1 : NInv c n1) by (apply NInv_cancel_older; exact I).
+    assert (L1 : hv_le n n1) by (right; cbn; lia).
+    destruct (negb (ctx_for n1 _)); cbn [fst]; [split; assumption|].
+    split; [apply NInv_maxsync; exact I1|]. apply (hv_le_trans _ _ _ L1). right. cbn. lia. }
+  destruct (n_maxsync n) as [mx|]; [|exact G].
+  destruct (N.leb hb mx); [cbn [fst]; split; [exact I|apply hv_le_refl]|exact G].
+Qed.
+
+Lemma sync_worker_inv fuel n prev : NInv c n -> NInv c (sync_worker fuel c n prev) /\ hv_le n (sync_worker fuel c n prev).
+Proof.
+  intro I. unfold sync_worker. destruct (N.leb _ _); [apply new_round_inv; exact I|split; [exact I|apply hv_le_refl]].
+Qed.
+
 Theorem step_inv n e : NInv c n -> NInv c (step c n e) /\ hv_le n (step c n e).
 Proof.
   intro I. unfold step.
@@ -366,7 +387,7 @@ Proof.
   assert (Ig : NInv c ng) by (apply NInv_cancel_older; exact I).
   assert (Lg : hv_le n ng) by (right; cbn; lia).
   assert (G : forall n', NInv c n' /\ hv_le ng n' -> NInv c n' /\ hv_le n n') by (intros n' [A B]; split; [exact A|exact (hv_le_trans _ _ _ Lg B)]).
-  destruct e as [m|h v|prev|].
+  destruct e as [m|h v|prev| |prev|prev].
   - apply G. apply filter_handle_inv; [apply Hnext|exact Ig].
   - apply G. set (n1 := cancel_older (h, wrap64 (v + 1)) ng).
     assert (I1 : NInv c n1) by (apply NInv_cancel_older; exact Ig).
@@ -380,28 +401,13 @@ Proof.
     assert (Eh : t_h (tc_t x') = t_h t) by (destruct (move_hc c (n_wm n1) (n_shut n1) (tc_of n1 t) h v) as [A _]; exact A).
     destruct (write_back_inv c n1 t x' I1 Et CS SI Eh) as (I' & L' & _).
     split; [exact I'|exact (hv_le_trans _ _ _ L1 L')].
-  - apply G.
-    assert (S : forall n0, NInv c n0 -> hv_le ng n0 ->
-       NInv c (let n1 := cancel_older (wrap64 (match prev with Some b => b_height b | None => 0 end + 1), 0) n0 in
-               if negb (ctx_for n1 (wrap64 (match prev with Some b => b_height b | None => 0 end + 1), 0)) then n1 else
-               let n2 := set_maxsync (match prev with Some b => b_height b | None => 0 end) n1 in
-               if N.leb (n_h n2) (match prev with Some b => b_height b | None => 0 end) then new_round (fuel_of n) c n2 prev false else n2)
-       /\ hv_le ng (let n1 := cancel_older (wrap64 (match prev with Some b => b_height b | None => 0 end + 1), 0) n0 in
-               if negb (ctx_for n1 (wrap64 (match prev with Some b => b_height b | None => 0 end + 1), 0)) then n1 else
-               let n2 := set_maxsync (match prev with Some b => b_height b | None => 0 end) n1 in
-               if N.leb (n_h n2) (match prev with Some b => b_height b | None => 0 end) then new_round (fuel_of n) c n2 prev false else n2)).
-    { intros n0 I0 L0. cbn zeta.
-      set (n1 := cancel_older _ n0). assert (I1 : NInv c n1) by (apply NInv_cancel_older; exact I0).
-      assert (L1 : hv_le ng n1) by (apply (hv_le_trans _ _ _ L0); right; cbn; lia).
-      destruct (negb (ctx_for n1 _)); [split; assumption|].
-      set (n2 := set_maxsync _ n1). assert (I2 : NInv c n2) by (apply NInv_maxsync; exact I1).
-      assert (L2 : hv_le ng n2) by (apply (hv_le_trans _ _ _ L1); right; cbn; lia).
-      destruct (N.leb _ _); [|split; assumption].
-      destruct (new_round_inv (fuel_of n) n2 prev false I2) as [I3 L3]. split; [exact I3|exact (hv_le_trans _ _ _ L2 L3)]. }
-    fold ng. destruct (n_maxsync ng) as [mx|].
-    + destruct (N.leb _ mx); [split; [exact Ig|apply hv_le_refl]|]. apply (S ng Ig (hv_le_refl ng)).
-    + apply (S ng Ig (hv_le_refl ng)).
+  - apply G. fold ng. destruct (sync_main_inv ng prev Ig) as [I1 L1]. cbn zeta.
+    destruct (snd (sync_main ng prev)); [|split; assumption].
+    destruct (sync_worker_inv (fuel_of n) (fst (sync_main ng prev)) prev I1) as [I2 L2].
+    split; [exact I2|exact (hv_le_trans _ _ _ L1 L2)].
   - split; [exact Ig|exact Lg].
+  - apply G. fold ng. apply sync_main_inv. exact Ig.
+  - apply sync_worker_inv. exact I.
 Qed.
 End NodeInduction.
 
@@ -463,3 +469,13 @@ Proof. intro H. apply (ni_commits _ _ (nrun_inv c evs H)). Qed.
 (* the term of a height belongs to that height: there is one term per height (heights of terms only increase) *)
 Theorem term_height_is_state_height c evs t : cfg_ok c -> n_term (nrun c evs) = Some t -> t_h t = n_h (nrun c evs).
 Proof. intros H E. apply (ni_term _ _ (nrun_inv c evs H) t E). Qed.
+
+(* the term a node has installed is the term of the node's height, after every sequence of events - deliveries,
+   elections, whole syncs, and syncs whose two halves (main loop, worker) are separated by anything else *)
+Theorem installed_term_height c evs t : cfg_ok c -> n_term (nrun c evs) = Some t -> t_h t = n_h (nrun c evs).
+Proof. intros H Ht. destruct (ni_term _ _ (nrun_inv c evs H) t Ht) as [A _]. exact A. Qed.
+
+(* a whole sync is its two halves back to back *)
+Lemma sync_is_its_halves c n prev : snd (sync_main (cancel_older (n_h n, 0) n) prev) = true ->
+  step c n (ESync prev) = sync_worker (fuel_of n) c (step c n (ESyncMain prev)) prev.
+Proof. intro H. unfold step. cbn zeta. rewrite H. reflexivity. Qed.
